@@ -172,7 +172,7 @@ class ProgWP(LinWP):
                         new = MV(rhs.m)
                         new.cols = rhs.cols
                     elif isinstance(old, AV) and not isinstance(old, RV) and isinstance(rhs, AV) and not isinstance(rhs, RV):
-                        new = AV(rhs.c, str(len(rhs.c)))
+                        new = AV(rhs.c, str(len(rhs.c)) if self.dim is not None else rhs.n)      # generic coordinate: the symbolic length
                     else:
                         raise Unsupported(f'{self.name}: {type(rhs).__name__} assigned to the {type(old).__name__} {key}')
                     self.env[key] = new
